@@ -8,16 +8,17 @@
    of the regular language of r's expression (decided by a derivative matcher proved equal to the declarative semantics,
    C09_shape_is_regular), the literal first/last characters, nested ordered spans on char boundaries.  It is a consequence of
    C01/C14 for grammar.pest and of C04; the harness evaluates the extracted `shape_ok` on EVERY real parse.
-   Flags: `shipped ex lr tg` = the code without, `repaired ex lr tg` = with fixes/C09-1..4; ex = feature grammar-extras;
-   lr, tg = whether the tree has the two C06 repairs that touch functions modelled here (left_recursion::check_expr,
-   filter_map_top_down into NodeTag): every theorem holds for both values, the runner follows the tree.
+   Flags: `shipped st` = the code without, `repaired st` = with the C09 repairs (fixes/C09-1, -2, -4 and the leading-`|`
+   repair that entered the tree as C07-2); st : tree_state = feature grammar-extras and whether the tree has the repairs of
+   OTHER properties that touch functions modelled here (C06: left_recursion::check_expr, filter_map_top_down into NodeTag;
+   C07: ^"..." read from the inner string pair): every theorem holds for every st, the runner follows the tree (probe).
    FPanic = the Rust call panics; FFuel = model artefact.  Rendering is C10's theorem (PV.Pos.Top).           *)
 From Coq Require Import List Arith NArith ZArith Bool Lia.
 Import ListNotations.
 Require Import PV.Pos.Model PV.Pos.ErrorFmt PV.Pos.Spec PV.Pos.Top.
 Require Import PV.Front.Shape PV.Front.ShapeFacts PV.Front.Consume PV.Front.Validate PV.Front.Optimize PV.Front.Frontend.
 Require Import PV.Front.ConsumeProofs PV.Front.ValidateProofs PV.Front.OptimizeProofs PV.Front.FuelProofs PV.Front.Total
-               PV.Front.Steps PV.Front.StepsTop PV.Front.Witnesses.
+               PV.Front.OptimizeFuel PV.Front.Steps PV.Front.StepsTop PV.Front.Witnesses.
 Open Scope list_scope.
 
 (* an error location is a position / an ordered span on char boundaries of the text *)
@@ -39,58 +40,62 @@ Definition C09_statement_for (fl : flags) : Prop :=
   /\
   (exists c k, forall rules builtins ex fuel errs s,
      validate_ast rules fuel (fix_lr fl) (fix_tag fl) builtins ex = VOk errs s -> s <= c * (rules_size rules) ^ k).
-Definition C09_statement : Prop := forall ex lr tg, C09_statement_for (shipped ex lr tg).
+Definition C09_statement : Prop := forall st, C09_statement_for (shipped st).
 
 (* ------------------------------------------------------------------ what is proved for the repaired code *)
 (* C09_no_panic + C09_locations + rendering: every clause of the first half except `<> FFuel`, for EVERY fuel
    and without any bound on the repetition counts (the repaired unroller needs none) *)
 Definition C09_total_located_statement : Prop :=
-  forall ex lr tg builtins fuel text forest, shape_ok text forest = true ->
-    let out := frontend (repaired ex lr tg) builtins fuel text forest in
+  forall st builtins fuel text forest, shape_ok text forest = true ->
+    let out := frontend (repaired st) builtins fuel text forest in
     out <> FPanic /\ docs_consume forest = true /\
     forall l, out = FErrors l -> forall e, In e l -> located text (snd e) /\ renders text (snd e).
 Theorem C09_total_located : C09_total_located_statement.
 Proof.
-  intros ex lr tg builtins fuel text forest SH out. split; [apply frontend_no_panic; exact SH|]. split.
+  intros st builtins fuel text forest SH out. split; [apply frontend_no_panic; exact SH|]. split.
   - apply (docs_consume_ok text). apply shape_ok_forest. exact SH.
-  - intros l E e He. pose proof (frontend_located ex lr tg builtins fuel text forest l SH E e He) as L.
+  - intros l E e He. pose proof (frontend_located st builtins fuel text forest l SH E e He) as L.
     split; [exact L|]. intros msg. destruct (snd e) as [p|a b].
     + apply (top_render_pos_no_panic text p L msg).
     + destruct L as (L1 & L2 & L3). apply (top_render_span_no_panic text a L2 b L3 L1 msg).
 Qed.
 Definition C09_no_panic_statement : Prop :=
-  forall ex lr tg builtins fuel text forest, shape_ok text forest = true -> frontend (repaired ex lr tg) builtins fuel text forest <> FPanic.
+  forall st builtins fuel text forest, shape_ok text forest = true -> frontend (repaired st) builtins fuel text forest <> FPanic.
 Theorem C09_no_panic : C09_no_panic_statement.
 Proof. exact frontend_no_panic. Qed.
 Definition C09_locations_statement : Prop :=
-  forall ex lr tg builtins fuel text forest l, shape_ok text forest = true -> frontend (repaired ex lr tg) builtins fuel text forest = FErrors l ->
+  forall st builtins fuel text forest l, shape_ok text forest = true -> frontend (repaired st) builtins fuel text forest = FErrors l ->
   forall e, In e l -> located text (snd e).
 Theorem C09_locations : C09_locations_statement.
-Proof. intros ex lr tg builtins fuel text forest l SH E e He. exact (frontend_located ex lr tg builtins fuel text forest l SH E e He). Qed.
+Proof. intros st builtins fuel text forest l SH E e He. exact (frontend_located st builtins fuel text forest l SH E e He). Qed.
 
 (* with the unroller as shipped (only the reader repaired, fixes C09-1..3) the same holds when every repetition count
    of the rules read is at most 2^32 - 3 *)
 Definition C09_no_panic_bounded_counts_statement : Prop :=
-  forall ex lr tg builtins fuel text forest, shape_ok text forest = true ->
-    (forall rules, consume_rules_with_spans (repaired_reader_only ex lr tg) text fuel forest = ODone rules ->
+  forall st builtins fuel text forest, shape_ok text forest = true ->
+    (forall rules, consume_rules_with_spans (repaired_reader_only st) text fuel forest = ODone rules ->
                    Forall (fun r => counts_le 4294967293 (pbody r)) rules) ->
-    frontend (repaired_reader_only ex lr tg) builtins fuel text forest <> FPanic.
+    frontend (repaired_reader_only st) builtins fuel text forest <> FPanic.
 Theorem C09_no_panic_bounded_counts : C09_no_panic_bounded_counts_statement.
 Proof. exact frontend_no_panic_bounded_counts. Qed.
 
-(* termination (`<> FFuel`), PARTIAL: proved for the reader and the validator - more fuel than the nesting depth of the
-   forest / than the number of rules always suffices.  Missing: the three top-down optimizer passes (rotate, skip, factor);
-   for rotate and factor a size argument remains to be written, for the skipper termination needs the soundness of the
-   left-recursion check (property C06).  So: if the model runs out of fuel, it does so inside `optimize`. *)
+(* termination (`<> FFuel`), PARTIAL: proved for the reader, the validator and the optimizer passes rotate and factor -
+   more fuel than the nesting depth of the forest / the number of rules / the size of the rule body always suffices.
+   Missing: the skipper (atomic rules only): populate_choices follows rule references with no cycle check of its own, so its
+   termination needs the soundness of the left-recursion check (property C06).  So: if the model runs out of fuel, it does so
+   in the skipper pass of an atomic rule. *)
 Definition C09_terminates_partial_statement : Prop :=
   forall fl builtins fuel text forest,
     (fdepth forest <= fuel -> consume_rules_with_spans fl text fuel forest <> OFuel) /\
-    (forall rules, length rules < fuel -> validate_ast rules fuel (fix_lr fl) (fix_tag fl) builtins (extras fl) <> VFuel).
+    (forall rules, length rules < fuel -> validate_ast rules fuel (fix_lr fl) (fix_tag fl) builtins (extras fl) <> VFuel) /\
+    (forall map r, asize (abody r) <= fuel -> optimize_rule (extras fl) (fix_unroll fl) fuel map r = OptFuel ->
+       aty r = TAtomic /\ exists e1, map_td fuel (rotate_internal fuel) (abody r) = Some e1 /\ map_td fuel (skip_fn fuel map) e1 = None).
 Theorem C09_terminates_partial : C09_terminates_partial_statement.
 Proof.
-  intros fl builtins fuel text forest. split.
+  intros fl builtins fuel text forest. split; [|split].
   - intros D E. pose proof (consume_rules_nofuel fl text fuel forest D) as N. rewrite E in N. exact N.
   - intros rules L E. pose proof (validate_ast_nf rules fuel (fix_lr fl) (fix_tag fl) ltac:(rewrite map_length; exact L) builtins (extras fl)) as N. rewrite E in N. exact N.
+  - intros map r L E. eapply optimize_rule_fuel; eauto.
 Qed.
 
 (* the shape invariant IS the regular-language statement: the matcher used by shape_ok decides `matches` *)
@@ -119,48 +124,50 @@ Definition panics (fl : flags) (text : str) (forest : list tok) : Prop :=
   shape_ok text forest = true /\ frontend fl [] (default_fuel text forest) text forest = FPanic.
 (* "\u{D800}" / '\u{110000}'..'z' / ^"\u{DFFF}" : expect("incorrect string|char literal")   [fixes/C09-1]
    PEEK[99999999999..] : parse::<i32>().unwrap()                                             [fixes/C09-2]
-   ( | "a" ) : the Pratt parser meets an infix operator first                                [fixes/C09-3]
+   ( | "a" ) : the Pratt parser meets an infix operator first                                [in the tree since C07-2]
+   ^/*\*/"a" : (tree before C07-1) unescape runs over the comment between ^ and the literal  [in the tree since C07-1]
    "x"{4294967294,} : `1..min + 2` overflows                                                 [fixes/C09-4] *)
 Definition C09_refuted_witnesses_statement : Prop :=
-  panics (shipped false true true) w_escape_str_text w_escape_str_forest /\
-  panics (shipped false true true) w_escape_chr_text w_escape_chr_forest /\
-  panics (shipped false true true) w_escape_ins_text w_escape_ins_forest /\
-  panics (shipped false true true) w_peek_text w_peek_forest /\
-  panics (shipped false true true) w_paren_choice_text w_paren_choice_forest /\
-  panics (shipped false true true) w_unroll_text w_unroll_forest /\
-  panics (repaired_reader_only false true true) w_unroll_text w_unroll_forest /\
-  panics (shipped false false false) w_escape_str_text w_escape_str_forest.
+  panics (shipped current) w_escape_str_text w_escape_str_forest /\
+  panics (shipped current) w_escape_chr_text w_escape_chr_forest /\
+  panics (shipped current) w_escape_ins_text w_escape_ins_forest /\
+  panics (shipped current) w_peek_text w_peek_forest /\
+  panics (shipped current) w_paren_choice_text w_paren_choice_forest /\
+  panics (shipped current) w_unroll_text w_unroll_forest /\
+  panics (repaired_reader_only current) w_unroll_text w_unroll_forest /\
+  panics (shipped original) w_escape_str_text w_escape_str_forest /\
+  panics (shipped original) w_insens_comment_text w_insens_comment_forest.
 Theorem C09_refuted_witnesses : C09_refuted_witnesses_statement.
 Proof. unfold C09_refuted_witnesses_statement, panics. repeat split; vm_compute; reflexivity. Qed.
 
 Definition C09_refuted_statement : Prop := ~ C09_statement.
 Theorem C09_refuted : C09_refuted_statement.
 Proof.
-  intros H. destruct (H false true true) as [T _].
+  intros H. destruct (H current) as [T _].
   destruct (T [] w_escape_str_text w_escape_str_forest ltac:(vm_compute; reflexivity)) as (NP & _).
   apply NP. vm_compute. reflexivity.
 Qed.
 (* the repaired code falls short of the full statement by the step bound only *)
-Definition C09_repaired_refuted_statement : Prop := forall ex lr tg, ~ C09_statement_for (repaired ex lr tg).
+Definition C09_repaired_refuted_statement : Prop := forall st, ~ C09_statement_for (repaired st).
 Theorem C09_repaired_refuted : C09_repaired_refuted_statement.
-Proof. intros ex lr tg [_ H]. exact (C09_steps_refuted lr tg H). Qed.
+Proof. intros st [_ H]. exact (C09_steps_refuted _ _ H). Qed.
 
 (* ------------------------------------------------------------------ non-vacuity *)
 (* the repaired code on the witnesses: located errors, resp. rules *)
-Example repaired_escape : frontend (repaired false true true) [] (default_fuel w_escape_str_text w_escape_str_forest) w_escape_str_text w_escape_str_forest
+Example repaired_escape : frontend (repaired current) [] (default_fuel w_escape_str_text w_escape_str_forest) w_escape_str_text w_escape_str_forest
                           = FErrors [(KBadEscape, LSpan 6 16)].
 Proof. vm_compute. reflexivity. Qed.
-Example repaired_peek : frontend (repaired false true true) [] (default_fuel w_peek_text w_peek_forest) w_peek_text w_peek_forest
+Example repaired_peek : frontend (repaired current) [] (default_fuel w_peek_text w_peek_forest) w_peek_text w_peek_forest
                         = FErrors [(KOverflowI32, LSpan 11 22)].
 Proof. vm_compute. reflexivity. Qed.
-Example repaired_paren_choice : frontend (repaired false true true) [] (default_fuel w_paren_choice_text w_paren_choice_forest) w_paren_choice_text w_paren_choice_forest
+Example repaired_paren_choice : frontend (repaired current) [] (default_fuel w_paren_choice_text w_paren_choice_forest) w_paren_choice_text w_paren_choice_forest
                                 = FRules 1.
 Proof. vm_compute. reflexivity. Qed.
 (* a well-formed grammar: the hypothesis shape_ok is satisfiable and the front end returns rules in both configurations *)
 Example ok_shape : shape_ok w_ok_text w_ok_forest = true.
 Proof. vm_compute. reflexivity. Qed.
-Example ok_rules : frontend (shipped false true true) [] (default_fuel w_ok_text w_ok_forest) w_ok_text w_ok_forest = FRules 2 /\
-                   frontend (repaired false true true) [] (default_fuel w_ok_text w_ok_forest) w_ok_text w_ok_forest = FRules 2.
+Example ok_rules : frontend (shipped current) [] (default_fuel w_ok_text w_ok_forest) w_ok_text w_ok_forest = FRules 2 /\
+                   frontend (repaired current) [] (default_fuel w_ok_text w_ok_forest) w_ok_text w_ok_forest = FRules 2.
 Proof. split; vm_compute; reflexivity. Qed.
 (* the shape invariant is not trivially true: dropping a closing brace token breaks it *)
 Example bad_shape : shape_ok w_ok_text (removelast w_ok_forest) = false.
